@@ -28,7 +28,7 @@ ASSUMPTIONS = ['rows entering a checkpoint hold native values of the schema type
                'sub-second parts of time / datetime values are dropped by the encoding: recorded finding F-C07-microseconds']
 
 
-def mk_temporal(it, kind, aware=None):
+def mk_temporal(it, kind, aware=None, named=True):
     """model of a datetime.date / time / datetime value: abstract identity `v`, strftime uninterpreted, utcoffset/tzname"""
     import z3
     from pyvc.api import Opaque, IntS, StrS, RealS, wrap, SV
@@ -55,7 +55,8 @@ def mk_temporal(it, kind, aware=None):
             td.attrs['call:total_seconds'] = lambda it2, o2, a2, k2: SV(off)
             return td
         o.attrs['call:utcoffset'] = utcoffset
-        o.attrs['call:tzname'] = lambda it_, ob, a, k: (SV(name) if aware else None)
+        o.attrs['call:tzname'] = lambda it_, ob, a, k: (SV(name) if (aware and named) else None)
+        o.named = named
     return o
 
 
@@ -113,7 +114,7 @@ def sym_ejson_roundtrip(vc):
     from pyvc import lib
     fk = vc.under_contract(EJ, ['CommonJSONEncoder', 'default'])
     fk2 = vc.under_contract(EJ, ['CommonJSONDecoder', 'object_hook'])
-    cases = ['decimal', 'time', 'date', 'datetime-naive', 'datetime-aware', 'duration', 'set', 'other']
+    cases = ['decimal', 'time', 'date', 'datetime-naive', 'datetime-aware', 'datetime-aware-unnamed', 'duration', 'set', 'other']
     for case in cases:
         def thunk(it, case=case):
             SF = install_datetime_model(it)
@@ -164,6 +165,9 @@ def sym_ejson_roundtrip(vc):
                 v = mk_temporal(it, 'datetime', aware=False)
             elif case == 'datetime-aware':
                 v = mk_temporal(it, 'datetime', aware=True)
+            elif case == 'datetime-aware-unnamed':
+                # a tzinfo without a name (dateutil.tz.tzoffset(None, secs)): zone-aware all the same
+                v = mk_temporal(it, 'datetime', aware=True, named=False)
             elif case == 'duration':
                 v = Opaque('timedelta', 'dur', term=it.fresh('dur', IntS))
             elif case == 'set':
@@ -180,7 +184,7 @@ def sym_ejson_roundtrip(vc):
                 return
             r = it.call(default, [enc, v])
             tagname = {'decimal': 'type{decimal}', 'time': 'type{time}', 'date': 'type{date}', 'datetime-naive': 'type{datetime}',
-                       'datetime-aware': 'type{datetime}', 'duration': 'type{duration}', 'set': 'type{set}'}[case]
+                       'datetime-aware': 'type{datetime}', 'datetime-aware-unnamed': 'type{datetime}', 'duration': 'type{duration}', 'set': 'type{set}'}[case]
             ok = isinstance(r, PyDict) and list(r.d) == [tagname]
             check(it, 'encodes-under-its-own-tag[%s]' % case, ok)
             if not ok:
@@ -207,7 +211,7 @@ def sym_ejson_roundtrip(vc):
                     check(it, '%s-round-trip' % case, z3.And(term(s, StrS) == SF(z3.StringVal(case), v.term, z3.StringVal(fmtF)),
                                                             z3.BoolVal(f == fmtP)))
             elif case.startswith('datetime'):
-                aware = case.endswith('aware')
+                aware = 'aware' in case and 'naive' not in case
                 if aware:
                     ok = isinstance(back, Opaque) and getattr(back, 'combined', None) is not None
                     check(it, 'aware-datetime-rebuilt-with-a-timezone', ok)
@@ -218,7 +222,10 @@ def sym_ejson_roundtrip(vc):
                               _b(term(src.parsed_from[0], StrS) == SF(z3.StringVal('datetime'), v.term, z3.StringVal('%04Y-%m-%dT%H:%M:%S'))))
                         secs = tz.td.seconds_arg
                         check(it, 'utc-offset-round-trip', term(secs, IntS) == v.offset)
-                        check(it, 'zone-name-round-trip', term(tz.tzname, StrS) == v.tzname)
+                        if getattr(v, 'named', True):
+                            check(it, 'zone-name-round-trip', term(tz.tzname, StrS) == v.tzname)
+                        else:
+                            check(it, 'unnamed-zone-stays-unnamed', tz.tzname is None)
                 else:
                     ok = isinstance(back, Opaque) and getattr(back, 'parsed_from', None) is not None
                     check(it, 'naive-datetime-stays-naive', ok)
@@ -244,8 +251,14 @@ def nat_ejson(h):
     from dataflows.helpers.extended_json import ejson
     tzs = [None] + [datetime.timezone(datetime.timedelta(seconds=s), n) for s, n in
                     ((0, 'UTC'), (3600, 'A'), (-18000, 'EST'), (-1800, 'X'), (45 * 60 + 5 * 3600, 'NPT'), (-86399, 'm'), (86399, 'p'))]
+    try:
+        from dateutil import tz as _dtz
+        # tzinfo objects WITHOUT a name (what casting '...T10:00:00+05:30' with format 'any' produces)
+        tzs = tzs + [_dtz.tzoffset(None, 19800), _dtz.tzoffset(None, -28800)]
+    except ImportError:
+        pass
     for _ in range(h.n(200, 2000)):
-        kind = h.rng.choice(['decimal', 'date', 'time', 'datetime', 'duration', 'set', 'nested', 'text'])
+        kind = h.rng.choice(['decimal', 'date', 'time', 'datetime', 'datetime', 'duration', 'set', 'nested', 'text'])
         if kind == 'decimal':
             v = decimal.Decimal(h.rng.choice(['0', '-1.50', '1E+3', '12345678901234567890.123456789', '0.1', '-0']))
         elif kind == 'date':
@@ -267,7 +280,9 @@ def nat_ejson(h):
         back = ejson.loads(line)['v']
         ok = back == v and type(back) is type(v) and '\n' not in line
         if kind == 'datetime' and ok:
-            ok = back.utcoffset() == v.utcoffset() and back.tzname() == v.tzname()
+            # a zone without a name comes back as a plain fixed-offset zone (whose tzname() is derived from the offset)
+            ok = back.utcoffset() == v.utcoffset() and (back.tzname() == v.tzname() if v.tzname() is not None or v.tzinfo is None
+                                                        else back.tzinfo == datetime.timezone(v.utcoffset()))
         h.check(ok, EJ + '::CommonJSONEncoder.default', (kind, repr(v)), repr(v), repr(back))
 
 
